@@ -64,7 +64,7 @@ abbrev VMap := List (Int × String)
 
 /-- `_validate_key_value`: `none` = accepted -/
 def validKV (k : Int) (v : String) : Option Err :=
-  if k < 0 then some .keyError
+  if k < 0 ∨ 4294967295 < k then some .keyError        -- the keys are stored as unsigned 32-bit integers
   else if k = 0 ∧ v ≠ "Unknown" then some .valueError
   else none
 
